@@ -17,6 +17,8 @@ FromObs(o) ==
     [types |-> Strips(o.types),
      l1 |-> o.funcs[1].locals, l2 |-> o.funcs[2].locals,
      p1 |-> Len(o.funcs[1].params), p2 |-> Len(o.funcs[2].params),
+     \* (bases with imp2: import 1, of two parameters, is replaced by a built function with one f64 local)
+     p0 |-> 2, l0 |-> <<"F64">>,
      funcs |-> <<>>, replaced |-> FALSE, converted |-> FALSE, rejected |-> FALSE,
      globals |-> o.globals, mems |-> o.mems, data |-> o.data, iglobals |-> <<>>, imems |-> <<>>,
      \* the base: imported function 0, local functions 1 and 2, one local global, one local memory
@@ -86,13 +88,17 @@ FuncOfExport(o, name) ==
            fs == {f \in Range(o.funcs) : f.index = idx}
        IN IF fs = {} THEN <<>> ELSE <<CHOOSE f \in fs : TRUE>>
 
+\* bases with imp2 serve one question only (C14 on a function that replaced an import whose numbers of parameters
+\* and results differ): the output validates and the replaced function, now the last local one, has the locals asked for
+Imp2 == "imp2" \in DOMAIN C.base /\ C.base.imp2
 Final ==
     /\ k >= 1 /\ "skip" \notin DOMAIN C /\ k = Len(C.prog) + 1
     /\ k' = k + 1 /\ UNCHANGED <<cid, E>>
     /\ Chk("encode_panic", E.rejected \/ ~C.encode_panic, [msg |-> IF C.encode_panic THEN C.msg ELSE ""])
-    /\ C.encode_panic \/ E.rejected \/
+    /\ IF C.encode_panic \/ E.rejected \/ Imp2 THEN TRUE ELSE
        LET o == C.obs IN
        /\ Chk("invalid", C.valid, [err |-> C.err])
+       /\ Chk("second_encode_differs", ("same2" \notin DOMAIN C) \/ C.same2, [x |-> 0])
        /\ Chk("types", Strips(o.types) = E.types, [want |-> Len(E.types), got |-> Len(o.types)])
        /\ Chk("locals", o.funcs[1].locals = E.l1 /\ (E.converted \/ o.funcs[2].locals = E.l2),
               [l1 |-> o.funcs[1].locals, want1 |-> E.l1, want2 |-> E.l2])
@@ -122,6 +128,15 @@ Final ==
        /\ E.converted => Chk("converted_not_import", o.nimp = CountImp(E.fh, Len(E.fh)) + 1, [nimp |-> o.nimp])
        /\ (~E.replaced /\ ~E.converted) => Chk("import_count", o.nimp = CountImp(E.fh, Len(E.fh)), [want |-> CountImp(E.fh, Len(E.fh)), got |-> o.nimp])
 
-Next == Start \/ Step \/ Final
+FinalImp2 ==
+    /\ k >= 1 /\ "skip" \notin DOMAIN C /\ k = Len(C.prog) + 1 /\ Imp2
+    /\ k' = k + 2 /\ UNCHANGED <<cid, E>>
+    /\ IF C.encode_panic \/ E.rejected THEN TRUE ELSE
+       LET o == C.obs IN
+       /\ Chk("invalid", C.valid, [err |-> C.err])
+       /\ Chk("locals", o.funcs[Len(o.funcs)].locals = E.l0 /\ o.funcs[1].locals = E.l1,
+              [l0 |-> o.funcs[Len(o.funcs)].locals, want0 |-> E.l0, l1 |-> o.funcs[1].locals, want1 |-> E.l1])
+
+Next == Start \/ Step \/ Final \/ FinalImp2
 Spec == Init /\ [][Next]_vars
 =============================================================================
